@@ -29,15 +29,19 @@ Theorem C11_key_scope : forall c w rel,
   try_key c w rel = Err ENOENT.
 Proof. intros c w rel [H|H]; [apply try_key_not_iso|apply try_key_no_ps3iso]; exact H. Qed.
 
-(* precedence: the key file beside the image wins; REDKEY is consulted only when there is no such file; a key file
-   beside the image that exists but cannot be opened is an error (the image is never served as if it had no key) *)
+(* precedence: the key file beside the image wins; REDKEY is consulted only when there is no such file ("no such file"
+   includes a regular file where a directory of the key's path would be: key_missing); when REDKEY has none either no
+   key applies; a key file that exists but cannot be opened is an error (the image is never served as if it had no key) *)
 Theorem C11_precedence : forall c w rel idx,
   list_eqb (to_lower (ext (last_elem rel))) iso_ext = true ->
   find_index (fun x => list_eqb (to_lower x) ps3iso_dir) rel 0 = Some idx ->
   (forall r, open_key c w (adjacent_key rel) = Ok r -> try_key c w rel = r) /\
-  (open_key c w (adjacent_key rel) = Err ENOENT ->
-     try_key c w rel = match open_key c w (redkey_key rel idx) with Ok r => r | Err e2 => Err e2 end) /\
-  (forall e, open_key c w (adjacent_key rel) = Err e -> e <> ENOENT -> try_key c w rel = Err e).
+  (forall e1, open_key c w (adjacent_key rel) = Err e1 -> key_missing e1 = true ->
+     try_key c w rel = match open_key c w (redkey_key rel idx) with
+                       | Ok r => r
+                       | Err e2 => if key_missing e2 then Err ENOENT else Err e2
+                       end) /\
+  (forall e, open_key c w (adjacent_key rel) = Err e -> key_missing e = false -> try_key c w rel = Err e).
 Proof.
   intros c w rel idx H1 H2. split; [|split]; intros;
     [eapply try_key_adjacent|eapply try_key_redkey|eapply try_key_adjacent_unreadable]; eauto.
